@@ -400,6 +400,19 @@ inline int driverMain(int argc, char **argv, const char *driver,
   }
   prog[0] = ~0ull - 1;  // finished
   if (fini) fini(c);
+#ifndef VQ_NO_COUNT
+  {
+    // operations the archetype scalar was asked to perform (evidence for C19)
+    auto &k = vq::counts();
+    const std::pair<const char *, uint64_t> ops[] = {
+        {"vq:from-integer", k.from_int.load()}, {"vq:add", k.add.load()},
+        {"vq:sub", k.sub.load()},               {"vq:mul", k.mul.load()},
+        {"vq:div", k.div.load()},               {"vq:neg", k.neg.load()},
+        {"vq:compare", k.cmp.load()}};
+    for (const auto &o : ops)
+      if (o.second) c.counters[o.first] += o.second;
+  }
+#endif
   c.writeSummary("summary");
   if (c.out != stdout) fclose(c.out);
   return 0;
